@@ -29,7 +29,9 @@ logs = [parse(l) for l in ("/verif/seeded/_logs/eval.log", "/verif/seeded/_logs/
                             "/verif/seeded/_logs/eval_r4.log",
                             # complete re-evaluation against the final machinery and /repo HEAD
                             "/verif/seeded/_logs/eval_final2a.log", "/verif/seeded/_logs/eval_final2b.log",
-                            "/verif/seeded/_logs/eval_final3.log")]
+                            "/verif/seeded/_logs/eval_final3.log",
+                            # session 3: C13 check with the kept-id copy experiment (tree_copy_find)
+                            "/verif/seeded/_logs/eval_final4.log")]
 first, final, void = {}, {}, {}
 for lg in logs:
     for k, v in lg.items():
